@@ -163,6 +163,7 @@ class Gen:
         self.emit_cursor(o)
         self.emit_sizes_and_fill(o)
         self.emit_traits(o)
+        self.emit_type_traits(o)
         self.emit_visit(o)
         self.emit_sbc(o)
         self.emit_sets_enums(o)
@@ -571,6 +572,134 @@ class Gen:
             elif kind == "composite":
                 root("cmp_" + ident(tname), "sbepp::composite_traits<%s>" % tag, [("T::name()", "str", tname), ("T::description()", "str", a.get("description", "")), ("T::since_version()", "u64", int(a.get("sinceVersion", "0"))),
                                                                                 ("T::size_bytes()", "u64", e.size)] + dep(a))
+
+
+def _emit_type_traits(self, o):
+    """type-level traits (C18): value_type / *_type_tag / traits_tag / tag-kind predicates / children tag lists. Every check is a boolean the
+    compiler computes (std::is_same, list membership); a root returns them as a bit mask; self.type_trait_roots: [(root, [labels])]"""
+    s, pkg = self.s, self.pkg
+    self.type_trait_roots = []
+    names = set()
+
+    def tyroot(name, checks, usings=()):
+        for c0 in range(0, len(checks), 60):
+            chunk = checks[c0:c0 + 60]
+            nm = name if c0 == 0 else "%s_p%d" % (name, c0 // 60)
+            base, k = nm, 1
+            while nm in names:
+                k += 1
+                nm = "%s_x%d" % (base, k)
+            names.add(nm)
+            o.append("std::uint64_t r_ty_%s() {" % nm)
+            for u_ in usings:
+                o.append("  " + u_)
+            o.append("  std::uint64_t r = 0;")
+            for k, (label, expr) in enumerate(chunk):
+                o.append("  r |= static_cast<std::uint64_t>((%s) ? 1 : 0) << %d;" % (expr, k))
+            o.append("  return r;")
+            o.append("}")
+            self.type_trait_roots.append((nm, [l for l, _ in chunk]))
+
+    KIND = {"type": 1, "enum": 2, "enum_value": 4, "set": 8, "set_choice": 16, "composite": 32, "field": 64, "group": 128, "data": 256, "message": 512, "schema": 1024}
+
+    def kinds(tag, kind):
+        return ("tag-kind-predicates-accept-exactly-%s" % kind, "sbv::tag_kinds<%s>() == %du" % (tag, KIND[kind]))
+
+    def same(a, b):
+        return "std::is_same<%s, %s>::value" % (a, b)
+
+    def tlist(tags):
+        return "::sbepp::type_list<%s>" % ", ".join(tags)
+
+    def repr_type(e):
+        """(C++ representation type for Byte = char, its tag, is_template) of an encoding at a use site; None when the schema alone does not name it"""
+        if e.type_name is not None:
+            tmpl = e.kind in ("array", "composite")
+            return ("::%s::types::%s%s" % (pkg, e.type_name, "<char>" if tmpl else ""), "::%s::schema::types::%s" % (pkg, e.type_name), tmpl)
+        if e.kind == "scalar" and e.prim in CPP_PRIM and e.presence in ("required", "optional"):
+            t = "::sbepp::%s%s_t" % (e.prim, "_opt" if e.presence == "optional" else "")
+            return (t, t, False)
+        return None
+
+    stag = "::%s::schema" % pkg
+    # schema
+    pub = list(s.types.keys())
+    checks = [kinds(stag, "schema"),
+              ("message_tags-in-schema-order", same("T::message_tags", tlist(["%s::messages::%s" % (stag, m.name) for m in s.messages]))),
+              ("type_tags-has-every-public-type-once", "sbv::list_size<T::type_tags>::value == %d" % len(pub)),
+              ("header_type_tag", same("T::header_type_tag", "%s::types::%s" % (stag, s.header_type))),
+              ("header_type", same("T::header_type<char>", "::%s::types::%s<char>" % (pkg, s.header_type)))]
+    for t in pub:
+        checks.append(("type_tags-contains-%s" % t, "sbv::list_has<T::type_tags, %s::types::%s>::value" % (stag, t)))
+    tyroot("schema", checks, ["using T = sbepp::schema_traits<%s>;" % stag])
+    # levels
+    for L, msg in s.walk_levels():
+        tag = "%s::messages::%s" % (stag, "::".join(L.path))
+        idn = ident(*L.path)
+        if L.kind == "message":
+            view = "::%s::messages::%s<char>" % (pkg, L.name)
+            us = ["using T = sbepp::message_traits<%s>;" % tag, "using V = %s;" % view, "using E = V;"]
+            checks = [kinds(tag, "message"), ("value_type-is-the-message-view", same("T::value_type<char>", view)), ("traits_tag-of-view-is-the-tag", same("sbepp::traits_tag_t<V>", tag))]
+        else:
+            ptag = "%s::messages::%s" % (stag, "::".join(L.path[:-1]))
+            parent = ("typename sbepp::message_traits<%s>::template value_type<char>" if len(L.path) == 2 else "typename sbepp::group_traits<%s>::template entry_type<char>") % ptag
+            us = ["using T = sbepp::group_traits<%s>;" % tag, "using P = %s;" % parent, "using V = T::value_type<char>;", "using E = T::entry_type<char>;"]
+            dn = L.dimension.type_name
+            checks = [kinds(tag, "group"), ("value_type-is-what-the-accessor-returns", same("V", "sbv::rmcvref_t<decltype(std::declval<P>().%s())>" % L.name)),
+                      ("entry_type-is-the-group-element", same("E", "typename V::value_type")), ("traits_tag-of-view-is-the-tag", same("sbepp::traits_tag_t<V>", tag)),
+                      ("dimension_type", same("T::dimension_type<char>", "::%s::types::%s<char>" % (pkg, dn))), ("dimension_type_tag", same("T::dimension_type_tag", "%s::types::%s" % (stag, dn)))]
+        checks += [("field_tags-in-schema-order", same("T::field_tags", tlist(["%s::%s" % (tag, n) for n, e, off, fa in L.fields]))),
+                   ("group_tags-in-schema-order", same("T::group_tags", tlist(["%s::%s" % (tag, g.name) for g in L.groups]))),
+                   ("data_tags-in-schema-order", same("T::data_tags", tlist(["%s::%s" % (tag, n) for n, e, da in L.data])))]
+        for n, e, off, fa in L.fields:
+            ft = "sbepp::field_traits<%s::%s>" % (tag, n)
+            checks.append(kinds("%s::%s" % (tag, n), "field"))
+            rt = repr_type(e) if e.presence != "constant" else None
+            if rt:
+                vt = ("typename %s::template value_type<char>" % ft) if rt[2] else ("typename %s::value_type" % ft)
+                checks.append(("%s-value_type-is-%s" % (n, rt[0]), same(vt, rt[0])))
+                checks.append(("%s-value_type_tag" % n, same("typename %s::value_type_tag" % ft, rt[1])))
+                checks.append(("%s-accessor-returns-value_type" % n, same("sbv::rmcvref_t<decltype(std::declval<E>().%s())>" % n, vt)))
+        for n, e, da in L.data:
+            dt = "sbepp::data_traits<%s::%s>" % (tag, n)
+            checks.append(kinds("%s::%s" % (tag, n), "data"))
+            checks.append(("%s-value_type-is-what-the-accessor-returns" % n, same("typename %s::template value_type<char>" % dt, "sbv::rmcvref_t<decltype(std::declval<E>().%s())>" % n)))
+            checks.append(("%s-length_type_tag" % n, same("typename %s::length_type_tag" % dt, "%s::types::%s::length" % (stag, e.type_name))))
+            checks.append(("%s-length_type-is-the-sbe_size-type" % n, same("typename %s::length_type" % dt, "typename %s::template value_type<char>::sbe_size_type" % dt)))
+            le, _ = e.member("length")
+            checks.append(("%s-length-primitive" % n, same("typename %s::length_type::value_type" % dt, CPP_PRIM[le.prim])))
+        tyroot(("msg_" if L.kind == "message" else "grp_") + idn, checks, us)
+    # public types
+    for tname, node in s.types.items():
+        e = s.enc_of_type(tname)
+        tag = "%s::types::%s" % (stag, tname)
+        kind = node.tag.split("}")[-1]
+        rep = "::%s::types::%s" % (pkg, tname)
+        if kind == "type":
+            tmpl = e.kind == "array"
+            us = ["using T = sbepp::type_traits<%s>;" % tag]
+            checks = [kinds(tag, "type"), ("primitive_type", same("T::primitive_type", CPP_PRIM[e.prim]))]
+            if e.presence != "constant":
+                checks.append(("value_type", same("T::value_type<char>" if tmpl else "T::value_type", rep + ("<char>" if tmpl else ""))))
+                checks.append(("traits_tag-of-value_type-is-the-tag", same("sbepp::traits_tag_t<%s>" % (rep + ("<char>" if tmpl else "")), tag)))
+            tyroot("typ_" + ident(tname), checks, us)
+        elif kind == "enum":
+            checks = [kinds(tag, "enum"), ("encoding_type", same("T::encoding_type", CPP_PRIM[e.prim])), ("value_type", same("T::value_type", rep)), ("traits_tag-of-value_type-is-the-tag", same("sbepp::traits_tag_t<%s>" % rep, tag)),
+                      ("value_tags-in-schema-order", same("T::value_tags", tlist(["%s::%s" % (tag, vn) for vn, vt, va in e.values])))]
+            checks += [kinds("%s::%s" % (tag, vn), "enum_value") for vn, vt, va in e.values]
+            tyroot("enm_" + ident(tname), checks, ["using T = sbepp::enum_traits<%s>;" % tag])
+        elif kind == "set":
+            checks = [kinds(tag, "set"), ("encoding_type", same("T::encoding_type", CPP_PRIM[e.prim])), ("value_type", same("T::value_type", rep)), ("traits_tag-of-value_type-is-the-tag", same("sbepp::traits_tag_t<%s>" % rep, tag)),
+                      ("choice_tags-in-schema-order", same("T::choice_tags", tlist(["%s::%s" % (tag, cn) for cn, ci, ca in e.values])))]
+            checks += [kinds("%s::%s" % (tag, cn), "set_choice") for cn, ci, ca in e.values]
+            tyroot("set_" + ident(tname), checks, ["using T = sbepp::set_traits<%s>;" % tag])
+        elif kind == "composite":
+            checks = [kinds(tag, "composite"), ("value_type", same("T::value_type<char>", rep + "<char>")), ("traits_tag-of-value_type-is-the-tag", same("sbepp::traits_tag_t<%s<char>>" % rep, tag)),
+                      ("element_tags-in-schema-order", same("T::element_tags", tlist(["%s::%s" % (tag, mn) for mn, me, mo in e.members])))]
+            tyroot("cmp_" + ident(tname), checks, ["using T = sbepp::composite_traits<%s>;" % tag])
+
+
+Gen.emit_type_traits = _emit_type_traits
 
 
 def generate(schema_xml, out_path, schema_name=None):
